@@ -669,6 +669,81 @@ def check_split_quantum(rep, config):
     rep.floor("calls of mxmemSplit (%s)" % config, n, 2)
 
 
+def check_foreign_roots(rep, config):
+    """Pages inside the heap that belong to the C library (PgForeign: whatever malloc or the program's own sbrk took between two
+    heap extensions) may hold the only reference to a block of the store: the collector scans them as roots.  Every loop of
+    stoGcMark that walks the page map and skips the pages that are *not* foreign must scan each foreign page whole: the range
+    handed to stoGcMarkRange is [pgAt(i), pgAt(i) + PgSize) (or [pgAt(i), pgAt(i+1))), with i stepped by one.  A range that
+    ends early leaves a page -- for a one-page run: the only page -- unscanned, and a block referenced only from there is swept
+    while reachable.  Any other shape of that scan is refused (the end of a run of pages cannot be derived here)."""
+    f = common.extract("store.c", config, trees=["stoGcMark"])
+    fn = f.func("stoGcMark")
+    n = 0
+    for lp in walk(fn["body"]):
+        if lp["k"] != "ForStmt":
+            continue
+        body = lp["c"][-1]
+        skips = [x for x in walk(body) if x["k"] == "IfStmt" and
+                 any(y["k"] == "DeclRefExpr" and y["n"] == "PgForeign" for y in walk(x["c"][0])) and
+                 any(y["k"] == "ContinueStmt" for y in walk(x["c"][1]))]
+        inner = [x for x in walk(body) if x["k"] in ("ForStmt", "WhileStmt", "DoStmt")]
+        if not skips:
+            continue
+        # only the innermost loop carrying the skip
+        if any(any(y is skips[0] for y in walk(i_)) for i_ in inner):
+            continue
+        n += 1
+        where = "store.c:%d (stoGcMark)" % lp["l"]
+        key = "foreign-page-scanned-whole@%d:%s" % (n, config)
+        cond = strip(skips[0]["c"][0])
+        idx = None
+        for y in walk(cond):
+            if y["k"] == "ArraySubscriptExpr" and (strip(y["c"][0]) or {}).get("n") == "pgMap":
+                i_ = strip(y["c"][1])
+                if i_ is not None and i_["k"] == "DeclRefExpr":
+                    idx = i_["n"]
+        if idx is None or inner:
+            raise AnalysisBroken("%s: the scan of foreign pages is no longer `for (i..) { if (pgMap[i] != PgForeign) continue; "
+                                 "scan page i }` (an inner loop or another index): whether every foreign page is scanned whole has "
+                                 "to be re-derived by hand" % where)
+        writes = [x for x in walk(body) if (x["k"] in ("BinaryOperator", "CompoundAssignOperator") and x["op"].endswith("=") and
+                                            x["op"] not in ("==", "!=", "<=", ">=") and (strip(x["c"][0]) or {}).get("n") == idx) or
+                  (x["k"] == "UnaryOperator" and x["op"] in ("++", "--", "post++", "post--") and (strip(x["c"][0]) or {}).get("n") == idx)]
+        if writes:
+            raise AnalysisBroken("%s: the page index is changed inside the scan loop" % where)
+        marks = calls(body, "stoGcMarkRange")
+        if len(marks) != 1:
+            raise AnalysisBroken("%s: expected one stoGcMarkRange per foreign page, found %d" % (where, len(marks)))
+        lo, hi = strip(marks[0]["c"][1]), strip(marks[0]["c"][2])
+        # p = (char *) pgAt(i)
+        pvar = None
+        for x in walk(body):
+            if x["k"] == "BinaryOperator" and x["op"] == "=" and (strip(x["c"][0]) or {}).get("k") == "DeclRefExpr":
+                r = x["c"][1]
+                if any((y.get("mac") == "pgAt") for y in walk(r)) and any(y["k"] == "DeclRefExpr" and y["n"] == idx for y in walk(r)) \
+                        and not any(y["k"] == "BinaryOperator" and y["op"] in ("+", "-") and y.get("mac") != "pgAt" and
+                                    any(z["k"] == "DeclRefExpr" and z["n"] == idx for z in walk(y)) for y in walk(r)):
+                    pvar = strip(x["c"][0])["n"]
+        lo_ok = lo is not None and ((lo["k"] == "DeclRefExpr" and lo["n"] == pvar) or (lo.get("mac") == "pgAt"))
+        hi_ok = False
+        if hi is not None and hi["k"] == "BinaryOperator" and hi["op"] == "+":
+            a, b = strip(hi["c"][0]), strip(hi["c"][1])
+            if a is not None and a["k"] == "DeclRefExpr" and a["n"] == pvar and (b.get("mac") == "PgSize" or render(b) == "PgSize" or
+                                                                                  (const_value(b) is not None and const_value(b) >= 4096)):
+                hi_ok = True
+        if lo_ok and hi_ok:
+            rep.ok("T-roots", key, sample={"index": idx, "page pointer": pvar})
+        elif lo_ok and hi is not None and hi["k"] == "BinaryOperator" and hi["op"] == "+" and (strip(hi["c"][0]) or {}).get("n") == pvar:
+            rep.violation("T-roots", "foreign-page-scanned-whole", where,
+                          "the range scanned for foreign page %s ends at `%s`, not at the end of the page: the rest of the page is "
+                          "not looked at, and a block referenced only from there is freed while reachable" % (idx, render(hi)[:40]))
+        else:
+            raise AnalysisBroken("%s: the range handed to stoGcMarkRange for a foreign page is not [page, page + PgSize) (`%s` .. `%s`): "
+                                 "whether every foreign page is scanned whole has to be re-derived by hand"
+                                 % (where, render(lo)[:40] if lo else "?", render(hi)[:40] if hi else "?"))
+    rep.floor("scans of foreign pages in stoGcMark (%s)" % config, n, 1)
+
+
 def run(tier):
     rep = common.Report("C10", tier, EXPLANATION)
     for config in ("compiler", "runtime"):
@@ -681,6 +756,7 @@ def run(tier):
         check_asserted_ranges(rep, config)
         check_stale_across_collection(rep, config)
         check_split_quantum(rep, config)
+        check_foreign_roots(rep, config)
     rep.floor("C10 table obligations", rep.obligations, 60)
     rep.assumptions.append("allocation, free, resize and collection histories are not analysed")
     return rep
